@@ -18,7 +18,7 @@ RULE = (
     "x optimize_graph; non-trivial = run completed with >= 2 operations; distinct by hash of (recipe, configuration)"
 )
 ASSUMPTIONS = ["callbacks are delivered in the client process (true for the three local executors)"]
-NSHARDS = {"quick": 16, "thorough": 32}
+NSHARDS = {"quick": 16, "thorough": 16}
 PER_SHARD = {"quick": 100, "thorough": 600}
 
 
@@ -185,9 +185,9 @@ def finalize(tier, merged):
     return {
         "rule": RULE,
         "floors": [
-            ("operations whose advertised task count was checked", c.get("ops_checked", 0), 4000 if tier == "quick" else 50000),
-            ("task-end notifications observed", c.get("task_events", 0), 15000 if tier == "quick" else 180000),
-            ("store/to_zarr calls (incl. region stores) whose events were checked", c.get("store_calls", 0), 300 if tier == "quick" else 3500),
+            ("operations whose advertised task count was checked", c.get("ops_checked", 0), 4000 if tier == "quick" else 25000),
+            ("task-end notifications observed", c.get("task_events", 0), 15000 if tier == "quick" else 90000),
+            ("store/to_zarr calls (incl. region stores) whose events were checked", c.get("store_calls", 0), 300 if tier == "quick" else 1750),
         ],
         "assumptions": ASSUMPTIONS,
     }
